@@ -49,6 +49,46 @@ pub fn run(op: &str, v: &Value) -> Value {
                 },
             }
         }
+        "lex_one" => {
+            let src = str_field(v, "source");
+            match Lexer::new(&src) {
+                Err((e, _)) => json!({"screened": format!("{e:?}")}),
+                Ok(lx) => {
+                    let toks: Vec<Value> = lx.take(16).map(|(r, sp)| json!({"tok": format!("{r:?}"), "span": [sp.offset(), sp.len()]})).collect();
+                    json!({"tokens": toks})
+                }
+            }
+        }
+        "parse_pkgref" => {
+            use wac_parser::{Document, ImportType, PrimaryExpr, Statement};
+            let src = str_field(v, "source");
+            match Document::parse(&src) {
+                Err(e) => {
+                    let s = format!("{e:?}");
+                    if s.contains("InvalidVersion") { json!({"parts": {"error": "InvalidVersion"}, "detail": s}) } else { json!({"parse_error": s}) }
+                }
+                Ok(doc) => {
+                    let mut out = json!({"none": true});
+                    for st in &doc.statements {
+                        match st {
+                            Statement::Import(i) => {
+                                if let ImportType::Package(p) = &i.ty {
+                                    out = json!({"parts": {"name": p.name, "segments": p.segments, "version": p.version.as_ref().map(|v| v.to_string())},
+                                                 "span": [p.span.offset(), p.span.len()]});
+                                }
+                            }
+                            Statement::Let(l) => {
+                                if let PrimaryExpr::New(n) = &l.expr.primary {
+                                    out = json!({"parts": {"name": n.package.name, "version": n.package.version.as_ref().map(|v| v.to_string())}});
+                                }
+                            }
+                            _ => {}
+                        }
+                    }
+                    out
+                }
+            }
+        }
         "discover" => {
             let src = str_field(v, "source");
             match wac_parser::Document::parse(&src) {
